@@ -58,6 +58,15 @@ def states(tier, seed):
             st.append(dict(part="m0", surfs=ss, M=0.0, alpha=al, beta=0.0, rot=False, fam=fam))
     for ss, al in itertools.product(surf_sets(tier)[:: 3 if tier == "quick" else 1], [5.0, -10.0]):
         st.append(dict(part="cont", surfs=ss, alpha=al, fam=fam))
+    # rotation rates at M > 0: the onset flow handed to the equivalent incompressible problem must be a rigid-body rotation field
+    # OF THE STRETCHED GEOMETRY (some omega', u with v_i = omega' x r'_i + u) - "the incompressible problem on the geometry
+    # rotated into the wind frame and stretched"; no particular omega' is demanded
+    for ss, M, al, be, om_ in itertools.product(surf_sets(tier)[:: 2 if tier == "quick" else 1], [0.0, 0.3, 0.84], [5.0, -10.0], [0.0, 5.0], [[0.3, 0.0, 0.0], [0.0, 0.2, 0.0], [0.0, 0.0, -0.25], [0.35, 0.08, -0.05]]):
+        sym = any(s_["side"] != "full" for s_ in ss)
+        if sym and (be != 0.0 or om_[0] != 0.0 or om_[2] != 0.0):
+            inadm += 1
+            continue
+        st.append(dict(part="pgrot", surfs=ss, M=M, alpha=al, beta=be, omega=om_, fam=fam))
     return st, inadm
 
 
@@ -107,6 +116,25 @@ def run_state(s):
         nt = sc > 1e-9 and M > 0
         dg = digest_arrays(*Fc)
         tr = 2
+    elif s["part"] == "pgrot":
+        pc = aero(ms, syms, s["alpha"], s["beta"], s["M"], True, s["omega"])
+        r = np.array(pc.get_val("ap.aero_states.coll_pts"), dtype=float).reshape(-1, 3)
+        v = np.array(pc.get_val("ap.aero_states.rotational_velocities"), dtype=float).reshape(-1, 3)
+        # v_i = omega' x r_i + u  is linear in (omega', u): v_i = -[r_i]_x omega' + u
+        A = np.zeros((3 * len(r), 6))
+        for i, ri in enumerate(r):
+            A[3 * i : 3 * i + 3, :3] = -np.array([[0, -ri[2], ri[1]], [ri[2], 0, -ri[0]], [-ri[1], ri[0], 0]])
+            A[3 * i : 3 * i + 3, 3:] = np.eye(3)
+        x, *_ = np.linalg.lstsq(A, v.ravel(), rcond=None)
+        res = np.abs(A @ x - v.ravel()).max()
+        sc = max(np.abs(v).max(), 1e-300)
+        validated += 1
+        if not res <= 1e-10 * sc:
+            viol.append(dict(sig=dict(oracle="pg_rotation_is_rigid_field", nsurf=n, M0=bool(s["M"] == 0.0)), msg="M=%g omega=%s: the rotational onset flow of the equivalent incompressible problem is not a rigid-body rotation field of the stretched geometry (residual %.2e of its magnitude)" % (s["M"], s["omega"], res / sc), measure=float(res / sc)))
+        Fc = forces(pc, n)
+        nt = bool(np.abs(v).max() > 1e-9 and len(r) >= 4)
+        dg = digest_arrays(*Fc)
+        tr = 1
     elif s["part"] == "m0":
         om_ = ([0.0, 0.2, 0.0] if any(syms) else [0.1, -0.2, 0.3]) if s["rot"] else None
         pc = aero(ms, syms, s["alpha"], 0.0, 0.0, True, om_)
